@@ -359,7 +359,7 @@ func quotedSpelling(idx int64, maxLen int) string {
 
 // Complete numeric escapes are longer than the flat bound reaches (\u needs a
 // body of 6, \U of 10): a structured family enumerates them exhaustively over
-// a digit alphabet that contains the boundary digits (surrogates d800-dfff,
+// a digit alphabet that contains the boundary digits (surrogates d800-dfff and their neighbours d7ff / e000,
 // 0010ffff/00110000, \400, non-hex 'g').
 type escFamily struct {
 	prefix string
@@ -368,13 +368,13 @@ type escFamily struct {
 }
 
 func escFamilies(thorough bool) []escFamily {
-	u8 := "01df"
+	u8 := "01def"
 	if thorough {
-		u8 = "01d8f"
+		u8 = "01d8ef"
 	}
 	return []escFamily{
 		{`\x`, 2, "0179adDfFg"},
-		{`\u`, 4, "0178dDfFg"},
+		{`\u`, 4, "0178dDeEfFg"},
 		{`\U`, 8, u8},
 		{`\`, 3, "013478"},
 	}
